@@ -33,6 +33,58 @@ class _Missing(types.ModuleType):
         raise NotImplementedError('%s.%s is not stubbed for this harness' % (self.__name__, k))
 
 
+class _InertMeta(type):
+    """class-level attribute access yields further inert classes, so that
+    `torch.nn.Module`, `ET.QName`, `shapely.geometry.Polygon` ... resolve at
+    import time; *using* an instance at run time fails loudly."""
+
+    def __getattr__(cls, k):
+        if k.startswith('__'):
+            raise AttributeError(k)
+        return make_inert(cls.__name__ + '.' + k)
+
+
+class InertBase(metaclass=_InertMeta):
+    def __init__(self, *a, **k):
+        pass
+
+    def __call__(self, *a, **k):
+        if len(a) == 1 and not k and callable(a[0]):
+            return a[0]          # used as a decorator (torch.no_grad(), jit(...))
+        raise NotImplementedError('inert stub %s was called: the harness must stub it' % type(self).__name__)
+
+    def __getattr__(self, k):
+        if k.startswith('__'):
+            raise AttributeError(k)
+        raise NotImplementedError('inert stub %s.%s was used: the harness must stub it' % (type(self).__name__, k))
+
+    def __enter__(self):
+        return self
+
+    def __exit__(self, *a):
+        return False
+
+
+def make_inert(name):
+    return _InertMeta(name, (InertBase,), {})
+
+
+class Inert(types.ModuleType):
+    """module whose every attribute is an inert class (import-time only)"""
+
+    def __init__(self, name, allowed=None):
+        super().__init__(name)
+        if allowed:
+            self.__dict__.update(allowed)
+
+    def __getattr__(self, k):
+        if k.startswith('__'):
+            raise AttributeError(k)
+        v = make_inert(self.__name__ + '.' + k)
+        self.__dict__[k] = v
+        return v
+
+
 # ---------------------------------------------------------------------------
 # builtins
 # ---------------------------------------------------------------------------
@@ -178,6 +230,7 @@ def logsumexp(a, axis=None):
     def red(l):
         if not l:
             return -_math.inf
+        l = symnp._lift_logs(l)
         t = l[0]
         for x in l[1:]:
             t = symnp._logaddexp(t, x)
@@ -215,10 +268,10 @@ class csc_matrix:
 
 
 def make_scipy():
-    special = _ns('scipy.special', logsumexp=logsumexp)
+    special = Inert('scipy.special', dict(logsumexp=logsumexp))
     misc = _Missing('scipy.misc')
-    sparse = _ns('scipy.sparse', csc_matrix=csc_matrix)
-    sp = _Missing('scipy', {'special': special, 'sparse': sparse, 'misc': misc})
+    sparse = Inert('scipy.sparse', dict(csc_matrix=csc_matrix))
+    sp = Inert('scipy', {'special': special, 'sparse': sparse, 'misc': misc})
     return {'scipy': sp, 'scipy.special': special, 'scipy.sparse': sparse, 'scipy.misc': misc}
 
 
@@ -252,5 +305,5 @@ def default_shims():
     m.update(make_scipy())
     for name in ('torch', 'cv2', 'lxml', 'shapely', 'sklearn', 'skimage', 'safe_gpu', 'lmdb', 'tqdm', 'PIL',
                  'pyamg', 'brnolm', 'tensorflow', 'matplotlib', 'Levenshtein', 'arabic_reshaper'):
-        m.setdefault(name, _Missing(name))
+        m.setdefault(name, Inert(name))
     return m
